@@ -100,6 +100,22 @@ func DecodePureDKG(data []byte) (*puredkg.PureDKG, error) {
 	if err != nil {
 		return nil, err
 	}
+	// puredkg marks commitments and evaluations it has not received yet with nil entries. gob
+	// cannot represent those: a nil *Gammas or *big.Int is encoded through GobEncode as an empty
+	// value and decoded as a non-nil zero value, which puredkg takes for "already received" and
+	// then rejects the real message as a duplicate. Turn such zero values back into nil. A
+	// commitment that has been received is never empty; an evaluation that really is zero is
+	// treated like a missing one, which can be settled through accusation and apology.
+	for i, c := range p.Commitments {
+		if c != nil && len(*c) == 0 {
+			p.Commitments[i] = nil
+		}
+	}
+	for i, e := range p.Evals {
+		if e != nil && e.Sign() == 0 {
+			p.Evals[i] = nil
+		}
+	}
 	return p, nil
 }
 
